@@ -1,5 +1,7 @@
 package verifapi
 
+import "strings"
+
 // Identity alphabets. They are the real node ids / wallet addresses of the
 // repo's hard-coded test keys (internal/keygen: keys 0-4 are nodes, keys 5-7
 // wallets), so that the native replay can produce real signatures. The code
@@ -27,7 +29,8 @@ func KeyIndex(identity string) int {
 		}
 	}
 	for i, w := range wallets {
-		if w == identity {
+		// a wallet may name its address in any case (the signature check compares case-insensitively)
+		if strings.EqualFold(w, identity) {
 			return 5 + i
 		}
 	}
